@@ -374,6 +374,58 @@ impl<'a> VisitMut for Rules<'a> {
                 }
             }
         }
+        if self.ctx.on("R34") {
+            // R34b (same chain over owned clones, default for the empty case, folding with a function item):
+            //   let mut IT = A.iter().cloned();
+            //   let X = IT.next().unwrap_or(D);
+            //   IT.fold(X, F)                                        (tail expression of the block)
+            // -> X is a clone of element 0 (D when A is empty); the accumulator starts at X and becomes F(acc, clone of element i) for i = 1..
+            let n = b.stmts.len();
+            if n >= 3 {
+                let i = n - 3;
+                let parts = (|| -> Option<(syn::Expr, syn::Pat, syn::Expr, syn::Expr, syn::Expr)> {
+                    let syn::Stmt::Local(l1) = &b.stmts[i] else { return None };
+                    let syn::Pat::Ident(itid) = &l1.pat else { return None };
+                    let init1 = l1.init.as_ref()?;
+                    let syn::Expr::MethodCall(cl) = &*init1.expr else { return None };
+                    if cl.method != "cloned" || !cl.args.is_empty() { return None; }
+                    let syn::Expr::MethodCall(it) = &*cl.receiver else { return None };
+                    if it.method != "iter" || !it.args.is_empty() { return None; }
+                    let a = (*it.receiver).clone();
+                    let syn::Stmt::Local(l2) = &b.stmts[i + 1] else { return None };
+                    let init2 = l2.init.as_ref()?;
+                    if init2.diverge.is_some() { return None; }
+                    let syn::Expr::MethodCall(uo) = &*init2.expr else { return None };
+                    if uo.method != "unwrap_or" || uo.args.len() != 1 { return None; }
+                    let syn::Expr::MethodCall(nx) = &*uo.receiver else { return None };
+                    if nx.method != "next" || norm(&nx.receiver.to_token_stream().to_string()) != itid.ident.to_string() { return None; }
+                    let x = l2.pat.clone();
+                    let d = uo.args[0].clone();
+                    let syn::Stmt::Expr(syn::Expr::MethodCall(fd), None) = &b.stmts[i + 2] else { return None };
+                    if fd.method != "fold" || fd.args.len() != 2 || norm(&fd.receiver.to_token_stream().to_string()) != itid.ident.to_string() { return None; }
+                    if !matches!(&fd.args[1], syn::Expr::Path(_)) { return None; }
+                    Some((a, x, d, fd.args[0].clone(), fd.args[1].clone()))
+                })();
+                if let Some((a, x, d, init, f)) = parts {
+                    let k = self.ctx.fresh();
+                    let nn = syn::Ident::new(&format!("vx_n{}", k), proc_macro2::Span::call_site());
+                    let ii = syn::Ident::new(&format!("vx_i{}", k), proc_macro2::Span::call_site());
+                    let ac = syn::Ident::new(&format!("vx_acc{}", k), proc_macro2::Span::call_site());
+                    let new: Vec<syn::Stmt> = vec![
+                        syn::parse_quote!(let #nn = #a.len();),
+                        syn::parse_quote!(let #x = if #nn == 0 { #d } else { #a[0].clone() };),
+                        syn::parse_quote!(let mut #ac = #init;),
+                        syn::Stmt::Expr(syn::parse_quote!(for #ii in 1..#nn {
+                            #ac = #f(#ac, #a[#ii].clone());
+                        }), Some(Default::default())),
+                        syn::Stmt::Expr(syn::parse_quote!(#ac), None),
+                    ];
+                    b.stmts.truncate(i);
+                    b.stmts.extend(new);
+                    self.ctx.used("R34");
+                }
+            }
+        }
         if self.ctx.on("R18") {
             // R18 (A-normal form): `X.m(ARG);` for the methods listed in opts.anf_calls -> `let vx_a<k> = ARG; X.m(vx_a<k>);`
             // so that a proof can name the argument (argument evaluation order is unchanged)
